@@ -92,6 +92,26 @@ Contexts(tx) ==
        [ctx |-> "cmp-right",    entry |-> "subgoal", text |-> "$V == " \o tx],
        [ctx |-> "query-arg",    entry |-> "query",   text |-> "q(" \o tx \o ", x)"],
        [ctx |-> "rule-head",    entry |-> "rule",    text |-> "h(" \o tx \o ")."],
-       [ctx |-> "rule-body",    entry |-> "rule",    text |-> "h :- g(" \o tx \o ")."] >>
+       [ctx |-> "rule-body",    entry |-> "rule",    text |-> "h :- g(" \o tx \o ")."],
+       (* the same places written without the optional blank after a comma, in the middle, last *)
+       (* in a built-in / query / function, and one level down                                   *)
+       [ctx |-> "complex-arg-compact",  entry |-> "complex", text |-> "f(" \o tx \o ",x)"],
+       [ctx |-> "complex-last-compact", entry |-> "complex", text |-> "f(x," \o tx \o ")"],
+       [ctx |-> "complex-mid",          entry |-> "complex", text |-> "f(x, " \o tx \o ", y)"],
+       [ctx |-> "complex-mid-compact",  entry |-> "complex", text |-> "f(x," \o tx \o ",y)"],
+       [ctx |-> "list-first-compact",   entry |-> "list",    text |-> "[" \o tx \o ",x]"],
+       [ctx |-> "list-last-compact",    entry |-> "list",    text |-> "[x," \o tx \o "]"],
+       [ctx |-> "list-mid",             entry |-> "list",    text |-> "[x, " \o tx \o ", y]"],
+       [ctx |-> "list-before-tail",     entry |-> "list",    text |-> "[x, " \o tx \o " | $T]"],
+       [ctx |-> "builtin-last",         entry |-> "subgoal", text |-> "print(x, " \o tx \o ")"],
+       [ctx |-> "builtin-last-compact", entry |-> "subgoal", text |-> "print(x," \o tx \o ")"],
+       [ctx |-> "query-last",           entry |-> "query",   text |-> "q(x, " \o tx \o ")"],
+       [ctx |-> "query-last-compact",   entry |-> "query",   text |-> "q(x," \o tx \o ")"],
+       [ctx |-> "function-arg",         entry |-> "term",    text |-> "join(x, " \o tx \o ")"],
+       [ctx |-> "function-arg-compact", entry |-> "term",    text |-> "join(x," \o tx \o ")"],
+       [ctx |-> "nested-arg",           entry |-> "complex", text |-> "f(g(" \o tx \o "), x)"],
+       [ctx |-> "nested-last-compact",  entry |-> "complex", text |-> "f(x, g(y," \o tx \o "))"],
+       [ctx |-> "rule-head-last-compact", entry |-> "rule",  text |-> "h(x," \o tx \o ")."],
+       [ctx |-> "rule-body-last-compact", entry |-> "rule",  text |-> "h :- g(x," \o tx \o ")."] >>
 
 =============================================================================
